@@ -477,6 +477,11 @@ Parser::IdentifierRole Parser::guessRoleOfIdentifier(DeclarationContext declCtx)
             case SyntaxKind::OpenParenToken: {
                 if (declCtx == DeclarationContext::Parameter)
                     return IdentifierRole::TypedefName;
+                // Neither a parameter-type-list nor an identifier-list starts with `*' or `(':
+                // the parenthesis opens a declarator and the identifier names its type.
+                if (peek(LA + 1).kind() == SyntaxKind::AsteriskToken
+                        || peek(LA + 1).kind() == SyntaxKind::OpenParenToken)
+                    return IdentifierRole::TypedefName;
                 auto parens = 1;
                 auto check = 0;
                 while (true) {
